@@ -9,7 +9,7 @@ def justified(ch, ctx, did, **kw):
 
 def obligations(tier):
     obs = []
-    quick = [("D01", 4), ("D02", 5), ("D03", 5), ("D04", 5), ("D05a", 6), ("D06", 7), ("D08", 4), ("D09", 8), ("D09b", 8), ("D12", 7), ("D15", 4), ("D17", 5)]
+    quick = [("D01", 4), ("D02", 5), ("D03", 5), ("D04", 5), ("D05a", 6), ("D06", 7), ("D08", 4), ("D09", 8), ("D09b", 8), ("D12", 7), ("D15", 4), ("D17", 5), ("D30", 4)]
     for did, steps in quick:
         obs.append(ob("C01", "e2c." + did, "vt.harness.C01:justified", {"did": did, "steps": steps, "bits": True}, timeout=900))
     # nested split + join: every task of the split branch runs once per route; outcomes all succeed, two-way interleaving
@@ -23,6 +23,11 @@ def obligations(tier):
     obs.append(o)
     o = ob("C01", "e2c.raw.D03r", "vt.harness.C01:justified", {"did": "D03r", "steps": 4, "bits": True, "statuses": ["succeeded"], "bit_values": [True, False, None, "", [], {}, 0, "x"]}, timeout=900)
     o["antecedents"] = ["c01_final"]
+    obs.append(o)
+    # a loop whose body leaves the loop on every iteration into a multi-referenced task (one new route per firing)
+    o = ob("C01", "e2c.D29", "vt.harness.C01:justified", {"did": "D29", "steps": 7}, timeout=900)
+    obs.append(o)
+    o = ob("C01", "e2c.lazy.D29", "vt.harness.C01:justified", {"did": "D29", "steps": 7, "statuses": ["succeeded"], "lazy_start": 3}, timeout=1200)
     obs.append(o)
     obs.append(ob("C01", "twin.D03", "vt.harness.C01:justified", {"did": "D03", "steps": 5, "bits": True, "twin": True}, timeout=60))
     for o in obs:
